@@ -253,6 +253,7 @@ func c20registry() []c20entry {
 		call: func(g orb.Geometry) interface{} { c, a := planar.CentroidArea(g); return []interface{}{c, a} }})
 	add(c20entry{name: "planar.Length", covers: []string{"planar.Length"}, readOnly: true,
 		call:    func(g orb.Geometry) interface{} { return planar.Length(g) },
+		typed:   func(g orb.Geometry) (interface{}, bool) { return lengthRef(g, planar.Distance), g != nil },
 		combine: func(c orb.Collection, ms []interface{}) (interface{}, bool) { return sumFloats(ms), true }})
 	add(c20entry{name: "planar.DistanceFrom", covers: []string{"planar.DistanceFrom", "planar.DistanceFromWithIndex"}, readOnly: true,
 		call: func(g orb.Geometry) interface{} { return planar.DistanceFrom(g, q) },
@@ -264,14 +265,53 @@ func c20registry() []c20entry {
 			}
 			return d, true
 		}})
+	qs := []orb.Point{{5, 5}, {1, 1}, {7.5, 2}, {4, 6}, {2, 2.5}, {9, 9}}
+	add(c20entry{name: "planar.DistanceFrom (six query points)", readOnly: true,
+		call: func(g orb.Geometry) interface{} {
+			out := make([]interface{}, len(qs))
+			for i, p := range qs {
+				out[i] = planar.DistanceFrom(g, p)
+			}
+			return out
+		},
+		typed: func(g orb.Geometry) (interface{}, bool) {
+			out := make([]interface{}, len(qs))
+			for i, p := range qs {
+				out[i], _ = planar.DistanceFromWithIndex(g, p)
+			}
+			return out, true
+		},
+		combine: func(c orb.Collection, ms []interface{}) (interface{}, bool) {
+			out := make([]interface{}, len(qs))
+			for i := range qs {
+				d := math.Inf(1)
+				for _, m := range ms {
+					d = math.Min(d, m.([]interface{})[i].(float64))
+				}
+				out[i] = d
+			}
+			return out, true
+		}})
 	add(c20entry{name: "geo.Area", covers: []string{"geo.Area"}, readOnly: true,
 		call:    func(g orb.Geometry) interface{} { return geo.Area(g) },
 		combine: func(c orb.Collection, ms []interface{}) (interface{}, bool) { return sumFloats(ms), true }})
 	add(c20entry{name: "geo.Length", covers: []string{"geo.Length"}, readOnly: true,
 		call:    func(g orb.Geometry) interface{} { return geo.Length(g) },
+		typed:   func(g orb.Geometry) (interface{}, bool) { return lengthRef(g, geo.Distance), g != nil },
 		combine: func(c orb.Collection, ms []interface{}) (interface{}, bool) { return sumFloats(ms), true }})
 	add(c20entry{name: "geo.LengthHaversine", covers: []string{"geo.LengthHaversine", "geo.LengthHaversign"}, readOnly: true,
-		call: func(g orb.Geometry) interface{} { return []interface{}{geo.LengthHaversine(g), geo.LengthHaversign(g)} }})
+		call: func(g orb.Geometry) interface{} { return []interface{}{geo.LengthHaversine(g), geo.LengthHaversign(g)} },
+		typed: func(g orb.Geometry) (interface{}, bool) {
+			l := lengthRef(g, geo.DistanceHaversine)
+			return []interface{}{l, l}, g != nil
+		},
+		combine: func(c orb.Collection, ms []interface{}) (interface{}, bool) {
+			a, b := 0.0, 0.0
+			for _, m := range ms {
+				a, b = a+m.([]interface{})[0].(float64), b+m.([]interface{})[1].(float64)
+			}
+			return []interface{}{a, b}, true
+		}})
 	for _, bx := range []struct {
 		n string
 		b orb.Bound
@@ -503,7 +543,58 @@ func sameResult(a, b interface{}) bool {
 	if oka && okb {
 		return sameSet(sa, sb)
 	}
+	la, oka := a.([]interface{})
+	lb, okb := b.([]interface{})
+	if oka && okb {
+		if len(la) != len(lb) {
+			return false
+		}
+		for i := range la {
+			if !sameResult(la[i], lb[i]) {
+				return false
+			}
+		}
+		return true
+	}
 	return reflect.DeepEqual(a, b)
+}
+
+// lengthRef is what "length" means kind by kind: the sum of the segment distances of every line and ring;
+// a bound is measured as its ring, points have none.
+func lengthRef(g orb.Geometry, df orb.DistanceFunc) float64 {
+	seg := func(ps []orb.Point) float64 {
+		t := 0.0
+		for i := 1; i < len(ps); i++ {
+			t += df(ps[i-1], ps[i])
+		}
+		return t
+	}
+	t := 0.0
+	switch x := g.(type) {
+	case orb.LineString:
+		return seg(x)
+	case orb.Ring:
+		return seg(x)
+	case orb.MultiLineString:
+		for _, l := range x {
+			t += seg(l)
+		}
+	case orb.Polygon:
+		for _, r := range x {
+			t += seg(r)
+		}
+	case orb.MultiPolygon:
+		for _, p := range x {
+			t += lengthRef(p, df)
+		}
+	case orb.Bound:
+		return seg(x.ToRing())
+	case orb.Collection:
+		for _, m := range x {
+			t += lengthRef(m, df)
+		}
+	}
+	return t
 }
 
 // c20values: the fixed value set (every kind as nil slice, empty, one-vertex, ordinary, degenerate members), also wrapped in collections.
